@@ -320,6 +320,9 @@ def is_regex(instance):
     return re.compile(instance)
 
 
+_RFC3339_FULL_DATE = re.compile(r"^[0-9]{4}-[0-9]{2}-[0-9]{2}\Z")
+
+
 if hasattr(datetime.date, "fromisoformat"):
     _is_date = datetime.date.fromisoformat
 else:
@@ -331,6 +334,8 @@ else:
 def is_date(instance):
     if not isinstance(instance, str):
         return True
+    if not _RFC3339_FULL_DATE.match(instance):
+        return False
     return _is_date(instance)
 
 
